@@ -35,13 +35,13 @@ func (e c13xEv) short() string {
 }
 
 var c13x struct {
-	mu     sync.Mutex
-	log    []c13xEv
-	pools  []interface{} // kept alive so that identities (addresses) cannot be reused within a case
-	failAt string        // "<Hook>/<table>/<name>"
-	failErr  string      // error VALUE kind the failing hook returns (c13_errvals.go)
-	returned []error     // error objects returned by failing hooks
-	rec    *Recorder
+	mu       sync.Mutex
+	log      []c13xEv
+	pools    []interface{} // kept alive so that identities (addresses) cannot be reused within a case
+	failAt   string        // "<Hook>/<table>/<name>"
+	failErr  string        // error VALUE kind the failing hook returns (c13_errvals.go)
+	returned []error       // error objects returned by failing hooks
+	rec      *Recorder
 }
 
 func c13xPoolID(p gorm.ConnPool) (int, bool) {
@@ -149,16 +149,24 @@ func (h *HxParent) BeforeCreate(tx *gorm.DB) error {
 	c13xBC(tx, &h.Tag, h.Name)
 	return c13xHook("BeforeCreate", "hxparent", h.Name, tx)
 }
-func (h *HxParent) AfterCreate(tx *gorm.DB) error { return c13xHook("AfterCreate", "hxparent", h.Name, tx) }
-func (h *HxParent) AfterSave(tx *gorm.DB) error   { return c13xHook("AfterSave", "hxparent", h.Name, tx) }
+func (h *HxParent) AfterCreate(tx *gorm.DB) error {
+	return c13xHook("AfterCreate", "hxparent", h.Name, tx)
+}
+func (h *HxParent) AfterSave(tx *gorm.DB) error { return c13xHook("AfterSave", "hxparent", h.Name, tx) }
 func (h *HxParent) BeforeUpdate(tx *gorm.DB) error {
 	tx.Statement.SetColumn("Note", "updhook:"+h.Name)
 	return c13xHook("BeforeUpdate", "hxparent", h.Name, tx)
 }
-func (h *HxParent) AfterUpdate(tx *gorm.DB) error  { return c13xHook("AfterUpdate", "hxparent", h.Name, tx) }
-func (h *HxParent) BeforeDelete(tx *gorm.DB) error { return c13xHook("BeforeDelete", "hxparent", h.Name, tx) }
-func (h *HxParent) AfterDelete(tx *gorm.DB) error  { return c13xHook("AfterDelete", "hxparent", h.Name, tx) }
-func (h *HxParent) AfterFind(tx *gorm.DB) error    { return c13xHook("AfterFind", "hxparent", h.Name, tx) }
+func (h *HxParent) AfterUpdate(tx *gorm.DB) error {
+	return c13xHook("AfterUpdate", "hxparent", h.Name, tx)
+}
+func (h *HxParent) BeforeDelete(tx *gorm.DB) error {
+	return c13xHook("BeforeDelete", "hxparent", h.Name, tx)
+}
+func (h *HxParent) AfterDelete(tx *gorm.DB) error {
+	return c13xHook("AfterDelete", "hxparent", h.Name, tx)
+}
+func (h *HxParent) AfterFind(tx *gorm.DB) error { return c13xHook("AfterFind", "hxparent", h.Name, tx) }
 
 func (h *HxKid) BeforeSave(tx *gorm.DB) error {
 	h.Hits++
@@ -193,10 +201,12 @@ func (h *HxBoss) BeforeUpdate(tx *gorm.DB) error {
 	tx.Statement.SetColumn("Note", "updhook:"+h.Name)
 	return c13xHook("BeforeUpdate", "hxboss", h.Name, tx)
 }
-func (h *HxBoss) AfterUpdate(tx *gorm.DB) error  { return c13xHook("AfterUpdate", "hxboss", h.Name, tx) }
-func (h *HxBoss) BeforeDelete(tx *gorm.DB) error { return c13xHook("BeforeDelete", "hxboss", h.Name, tx) }
-func (h *HxBoss) AfterDelete(tx *gorm.DB) error  { return c13xHook("AfterDelete", "hxboss", h.Name, tx) }
-func (h *HxBoss) AfterFind(tx *gorm.DB) error    { return c13xHook("AfterFind", "hxboss", h.Name, tx) }
+func (h *HxBoss) AfterUpdate(tx *gorm.DB) error { return c13xHook("AfterUpdate", "hxboss", h.Name, tx) }
+func (h *HxBoss) BeforeDelete(tx *gorm.DB) error {
+	return c13xHook("BeforeDelete", "hxboss", h.Name, tx)
+}
+func (h *HxBoss) AfterDelete(tx *gorm.DB) error { return c13xHook("AfterDelete", "hxboss", h.Name, tx) }
+func (h *HxBoss) AfterFind(tx *gorm.DB) error   { return c13xHook("AfterFind", "hxboss", h.Name, tx) }
 
 // ---- case ---------------------------------------------------------------------------------------
 
@@ -218,14 +228,14 @@ type c13xCase struct {
 }
 
 type c13xObs struct {
-	Events  []c13xEv            `json:"events"`
-	Err     string              `json:"err"`
-	Before  map[string][]string `json:"-"`
-	After   map[string][]string `json:"after"`
-	Writes  []int               `json:"write_windows"` // per write statement at the driver: index of the begin..commit window it lies in (-1 = outside any)
-	Windows int                 `json:"windows"`
-	Batches []int               `json:"batches,omitempty"` // rows per INSERT into hxparent, in order
-	ErrReturned bool            `json:"err_returned"`      // the result carries every error a failing hook returned
+	Events      []c13xEv            `json:"events"`
+	Err         string              `json:"err"`
+	Before      map[string][]string `json:"-"`
+	After       map[string][]string `json:"after"`
+	Writes      []int               `json:"write_windows"` // per write statement at the driver: index of the begin..commit window it lies in (-1 = outside any)
+	Windows     int                 `json:"windows"`
+	Batches     []int               `json:"batches,omitempty"` // rows per INSERT into hxparent, in order
+	ErrReturned bool                `json:"err_returned"`      // the result carries every error a failing hook returned
 }
 
 func c13xDump(db *gorm.DB, rec *Recorder) map[string][]string {
@@ -524,7 +534,7 @@ func c13xRun(c c13xCase) c13xObs {
 				if c.Skip == "session" {
 					tx2 = tx2.Session(&gorm.Session{SkipHooks: true})
 				}
-				res = c13xExec(tx2, c)
+				res = c13Guard(func() *gorm.DB { return c13xExec(tx2, c) })
 				return res.Error
 			})
 			return nil
@@ -534,11 +544,11 @@ func c13xRun(c c13xCase) c13xObs {
 			if c.Skip == "session" {
 				tx = tx.Session(&gorm.Session{SkipHooks: true})
 			}
-			res = c13xExec(tx, c)
+			res = c13Guard(func() *gorm.DB { return c13xExec(tx, c) })
 			return res.Error
 		})
 	} else {
-		res = c13xExec(h, c)
+		res = c13Guard(func() *gorm.DB { return c13xExec(h, c) })
 	}
 	if res != nil && res.Error != nil {
 		obs.Err = res.Error.Error()
